@@ -14,6 +14,16 @@ def read_maps(path):
     return maps
 
 
+def group_elements(e, r):
+    """signed elements of the stabilizer group of to_state(m, r) from a RotSim line: images of the Z-strings
+    supported on qubits > r (computed by TLC)"""
+    out = []
+    for z, img in e[5]:
+        if all(z[q] == 0 for q in range(r)) and any(z[:-1]):
+            out.append(img)
+    return out
+
+
 class C03(Prop):
     id = "C03"
     trace_module = "TraceClifford"
